@@ -172,7 +172,7 @@ func C20() *vk.Check {
 			}
 		},
 		NonTrivial: func(s *sessStats) bool { return s.Restarts >= 1 || s.Blocked >= 1 }}
-	return &vk.Check{ID: "C20", Level: "exploration", MinEvaluations: 300, Shards: func(string) int { return 16 }, Run: mc.run,
+	return &vk.Check{ID: "C20", Level: "exploration", MinEvaluations: 300, Shards: func(string) int { return 16 }, Run: mc.run, Serial: tracedBuildLeg("C20", "hist/1*"),
 		Rule: "reference-model monitor, persisted driver over mem, fs and the Postgres fake: applications with end nodes of both kinds (code ends right after HALT / ends without HALT) at depth 0..8, functions that set TERMINATE, CROAK, client flags set along the way, symbols loaded at several levels; histories continue past the end of the session over several end/restart cycles, and TERMINATE is cleared in the stored state (as client code would) at PRNG points. " +
 			"Graceful end: the final page plus exit value is delivered, stop is reported, the next request starts at the entry node with an empty cache and the client flags kept. Other end / TERMINATE: stop is reported and every later request produces no output, makes no callback and does not move until the flag is cleared; afterwards the session proceeds. distinct = hash(app, history, driver); non-trivial = at least one restart or one blocked request was observed.",
 		Assumptions: []string{modelAssumption, "what the terminating request itself renders is unspecified"}}
